@@ -66,7 +66,7 @@ def variant_tag(pat):
 
 class Tracer:
     def __init__(self, crate, classify, may_err=None, closure_mode=None, max_paths=4000, value_of_call=None,
-                 cond_events=()):
+                 cond_events=(), cond_alias=None):
         self.crate = crate
         self.classify = classify
         self.may_err = may_err or (lambda e: True)
@@ -74,6 +74,8 @@ class Tracer:
         self.max_paths = max_paths
         self.value_of_call = value_of_call
         self.cond_events = set(cond_events)
+        # cond_alias(node) -> label | None: names a condition operand by what it *is* (provenance) instead of by its identifier
+        self.cond_alias = cond_alias
         self.keep_panics = False
         self.env = {}
         self.depth = 0
@@ -119,9 +121,26 @@ class Tracer:
         seed_params: names of parameters whose tests (`if let Some(x) = p`, `match p`) shall produce edge events `p@Variant`"""
         body = self.crate.user_body(f)
         self.env = {}
+        # parameters are addressed by their names on the reference tree (a rename is mapped back by position)
+        from .prov import ref_params
+        ref = ref_params().get(f'{self.crate.name}::{f.path}')
+        cur = [x.get('name') if isinstance(x, dict) and x.get('k') == 'bind' else None for x in f.params]
+        self.param_ref = {}
+        if ref and len(ref) == len(cur):
+            self.param_ref = {x['id']: r for x, r in zip(f.params, ref) if isinstance(x, dict) and x.get('k') == 'bind' and r}
+        # async fn: the coroutine body re-binds every parameter (`let key = key;`, desugaring)
+        hb = body.hir
+        if self.param_ref and isinstance(hb, dict) and hb.get('k') == 'block':
+            for st in hb.get('stmts', []):
+                if st.get('k') == 'let' and st['pat'].get('k') == 'bind' and isinstance(st.get('init'), dict) and \
+                        st['init'].get('k') == 'path' and st['init'].get('id') in self.param_ref and \
+                        any('desugar' in m for m in (st.get('x') or [])):
+                    self.param_ref[st['pat']['id']] = self.param_ref[st['init']['id']]
         for p in f.params:
-            if isinstance(p, dict) and p.get('k') == 'bind' and p.get('name') in seed_params:
-                self.env[p['id']] = ('from', p['name'])
+            if isinstance(p, dict) and p.get('k') == 'bind':
+                nm = self.param_ref.get(p['id'], p.get('name'))
+                if nm in seed_params:
+                    self.env[p['id']] = ('from', nm)
         paths = self.expr(body.hir)
         out = set()
         for (ex, t, v) in paths:
@@ -491,22 +510,33 @@ class Tracer:
         if k == 'block' and not c['stmts'] and 'tail' in c:
             return self.cond_eval(c['tail'])
         r = self.expr(c)
-        if self.cond_events and isinstance(c, dict) and c.get('k') == 'call' and short(callee(c)) in ('is_some', 'is_none', 'is_ok', 'is_err') \
-                and c['args'] and c['args'][0].get('k') == 'path' and c['args'][0].get('name') in self.cond_events:
-            n = c['args'][0]['name']
-            pos = short(callee(c)) in ('is_some', 'is_ok')
-            th = {(ex, t + (f'?{n}={int(pos)}',) if ex == 'fall' else t, v) for (ex, t, v) in r}
-            el = {(ex, t + (f'?{n}={int(not pos)}',) if ex == 'fall' else t, v) for (ex, t, v) in r}
-            return th, el
-        if self.cond_events:
-            inner = c
-            if isinstance(inner, dict) and (inner.get('k') == 'path' and inner.get('res') == 'local' or inner.get('k') == 'field') \
-                    and inner.get('name') in self.cond_events:
-                n = inner['name']
-                th = {(ex, t + (f'?{n}=1',) if ex == 'fall' else t, v) for (ex, t, v) in r}
-                el = {(ex, t + (f'?{n}=0',) if ex == 'fall' else t, v) for (ex, t, v) in r}
+        if (self.cond_events or self.cond_alias) and isinstance(c, dict) and c.get('k') == 'call' and \
+                short(callee(c)) in ('is_some', 'is_none', 'is_ok', 'is_err') and c['args'] and c['args'][0].get('k') == 'path':
+            n = self._cond_name(c['args'][0])
+            if n:
+                pos = short(callee(c)) in ('is_some', 'is_ok')
+                th = {(ex, t + (f'?{n}={int(pos)}',) if ex == 'fall' else t, v) for (ex, t, v) in r}
+                el = {(ex, t + (f'?{n}={int(not pos)}',) if ex == 'fall' else t, v) for (ex, t, v) in r}
                 return th, el
+        if self.cond_events or self.cond_alias:
+            inner = c
+            if isinstance(inner, dict) and (inner.get('k') == 'path' and inner.get('res') == 'local' or inner.get('k') == 'field'):
+                n = self._cond_name(inner)
+                if n:
+                    th = {(ex, t + (f'?{n}=1',) if ex == 'fall' else t, v) for (ex, t, v) in r}
+                    el = {(ex, t + (f'?{n}=0',) if ex == 'fall' else t, v) for (ex, t, v) in r}
+                    return th, el
         return r, r
+
+    def _cond_name(self, nd):
+        if self.cond_alias:
+            a = self.cond_alias(nd)
+            if a:
+                return a
+        nm = nd.get('name')
+        if nd.get('k') == 'path':
+            nm = getattr(self, 'param_ref', {}).get(nd.get('id'), nm)
+        return nm if nm in self.cond_events else None
 
     def if_(self, e):
         th, el = self.cond_eval(e['cond'])
